@@ -19,7 +19,7 @@ def _load():
   from . import units_cov
   register("GenCovariance", units_cov.units, ["libsigopt/compute/covariance_base.py", "libsigopt/aux/geometry_utils.py"])
   register("GenMultitask", units_cov.units_multitask, ["libsigopt/compute/covariance_base.py"])
-  for name in ("units_acq",):
+  for name in ("units_acq", "units_softmax"):
     try:
       mod = __import__(f"py2v.{name}", fromlist=["REGISTER"])
       for gen, (fn, extra) in mod.REGISTER.items():
